@@ -70,10 +70,17 @@ var concSizes = []int{12, 12, 16, 40, 100, 300, 520}
 // ---------------------------------------------------------------------------------------------
 // C07: linearizability.
 
-type linEngine struct{ t *testing.T }
+type linEngine struct {
+	t      *testing.T
+	poison bool // C14: aliasing + poisoning disk personality forced, read-heavy clients
+}
 
-func (linEngine) Generate(rng *rand.Rand, prop string, thorough bool) *Plan {
+func (l linEngine) Generate(rng *rand.Rand, prop string, thorough bool) *Plan {
 	cfg := GenConcCfg(rng, prop)
+	if l.poison {
+		cfg.Alias, cfg.Poison = true, true
+		cfg.CompMinSeg, cfg.CompFrag = 1, 0.01
+	}
 	p := &Plan{Property: prop, Engine: "lin", Cfg: cfg}
 	keys := GenKeys(rng, KeyFamily(cfg.Family), cfg.NKeys, cfg.HashSeed)
 	p.Cfg.NKeys = len(keys)
